@@ -13,9 +13,10 @@ int main(int argc, char **argv) {
     RunCtx ctx = makeCtx("replay-" + c.prop);
     CaseResult r = p->run(c, ctx);
     if (r.v == CaseResult::FAIL) {
-        printf("%s property=%s %s\n", r.knownFinding.empty() ? "FAIL" : "KNOWN", c.prop.c_str(), r.msg.c_str());
-        if (!r.knownFinding.empty()) printf("known-finding-class=%s\n", r.knownFinding.c_str());
-        return r.knownFinding.empty() ? 1 : 4;
+        const bool known = !r.knownFinding.empty() && ctx.isOpen(r.knownFinding);
+        printf("%s property=%s %s\n", known ? "KNOWN" : "FAIL", c.prop.c_str(), r.msg.c_str());
+        if (!r.knownFinding.empty()) printf("known-finding-class=%s%s\n", r.knownFinding.c_str(), known ? "" : " (not listed as open)");
+        return known ? 4 : 1;
     }
     if (r.v == CaseResult::DISCARD) { printf("DISCARD %s\n", r.msg.c_str()); return 3; }
     printf("PASS property=%s nontrivial=%d tags=", c.prop.c_str(), int(r.nontrivial));
